@@ -47,7 +47,7 @@ func val(id int) []byte { return []byte(fmt.Sprintf("v%d", id)) }
 
 func drawC05(rt *rapid.T) interface{} {
 	sc := &C05Scenario{}
-	sc.Mode = rapid.SampledFrom([]string{"seq", "seq", "conc", "conc", "redis", "rconc"}).Draw(rt, "mode")
+	sc.Mode = rapid.SampledFrom([]string{"seq", "seq", "conc", "conc", "redis", "rconc", "cbound"}).Draw(rt, "mode")
 	sc.NKeys = rapid.IntRange(1, 4).Draw(rt, "nkeys")
 	sc.BaseSec = 1700000005
 	switch sc.Mode {
@@ -58,6 +58,11 @@ func drawC05(rt *rapid.T) interface{} {
 	case "conc":
 		sc.Size = 100
 		sc.DefTTL = rapid.SampledFrom([]int64{-1, 0, 3, 13}).Draw(rt, "defttl")
+	case "cbound":
+		// concurrent callers on a small cache: no model of the eviction order, only the bound and "no invented values"
+		sc.Size = rapid.SampledFrom([]int{1, 2, 3}).Draw(rt, "bsize")
+		sc.DefTTL = rapid.SampledFrom([]int64{-1, 13}).Draw(rt, "defttl")
+		sc.NKeys = rapid.IntRange(2, 5).Draw(rt, "bkeys")
 	case "redis", "rconc":
 		sc.Size = 100
 		sc.DefTTL = rapid.SampledFrom([]int64{3, 13, 23}).Draw(rt, "defttl")
@@ -72,7 +77,7 @@ func drawC05(rt *rapid.T) interface{} {
 	}
 	nt := 1
 	maxOps := hx.Pick(40, 100)
-	if sc.Mode == "conc" || sc.Mode == "rconc" {
+	if sc.Mode == "conc" || sc.Mode == "rconc" || sc.Mode == "cbound" {
 		nt = rapid.IntRange(2, 4).Draw(rt, "ntasks")
 		maxOps = 6
 	}
@@ -547,6 +552,17 @@ func runC05Conc(t *testing.T, sc *C05Scenario, keepLog bool) *hx.Outcome {
 	h := &hx.History{}
 	cfg := sc.Knobs.Config(keepLog, 60000)
 	cfg.BaseUnixMs = sc.BaseSec * 1000
+	setIDs := map[int]map[int]bool{} // key -> ids ever stored under it
+	for _, ops := range sc.Tasks {
+		for _, op := range ops {
+			if op.Op == "set" {
+				if setIDs[op.Key] == nil {
+					setIDs[op.Key] = map[int]bool{}
+				}
+				setIDs[op.Key][op.ID] = true
+			}
+		}
+	}
 	main := func(s *simrt.Sim) {
 		c := cache.NewTTLMemCache(sc.Size, sc.DefTTL)
 		if sc.Mode == "rconc" {
@@ -591,12 +607,22 @@ func runC05Conc(t *testing.T, sc *C05Scenario, keepLog bool) *hx.Outcome {
 			}))
 		}
 		hx.WaitDone(s, ts...)
+		hits := 0
 		for k := 0; k < sc.NKeys; k++ {
 			op := ttlOp{Op: "get", Key: k, Mode: "plain"}
 			call := h.Invoke()
 			out := doTTL(c, op)
 			h.Return(len(sc.Tasks), call, op, out)
 			s.Logf("probe %d -> %+v", k, out)
+			if out.Code == "ok" {
+				hits++
+				if sc.Mode == "cbound" && !setIDs[k][out.ID] {
+					s.Fail("served-invented-value", "key %d: the cache returned v%d, which nobody stored under that key", k, out.ID)
+				}
+			}
+		}
+		if sc.Mode == "cbound" && hits > sc.Size {
+			s.Fail("more-than-size-keys-retrievable", "concurrent callers: the final probe retrieved %d distinct keys from a cache of size %d", hits, sc.Size)
 		}
 	}
 	res := hx.RunSim(t, cfg, nil, main)
@@ -607,7 +633,7 @@ func runC05Conc(t *testing.T, sc *C05Scenario, keepLog bool) *hx.Outcome {
 	if o.Counts == nil {
 		o.Counts = map[string]int{}
 	}
-	if o.Class == "" {
+	if o.Class == "" && sc.Mode != "cbound" {
 		switch hx.CheckLin(c05Model(sc), h, 20*time.Second) {
 		case "illegal":
 			o.Class = "ttl-history-not-linearizable"
